@@ -32,7 +32,7 @@ def exhaustive(tier):
 def required(tier):
     return {"exact_pairs": 5000, "type_checks": 5000, "law_checks": 1000,
             "prefix_products": 2000, "cache_entries_audited": 500, "gen_units": 200,
-            "primed_conversions": 1500, "array_conversions": 1000, "two_registry_conversions": 500}
+            "primed_conversions": 1500, "array_conversions": 1000, "two_registry_conversions": 500, "argument_form_conversions": 2000}
 
 
 def shards(tier, seed):
@@ -193,6 +193,26 @@ def run_shard(spec, rec):
             wac = x * want_ratio(a, c)[0]
             cmp(abc, wac, exact, dict(ctx, law="path a->b->c"), "law-path")
             cmp(ac, wac, exact, dict(ctx, law="direct a->c"), "law-path")
+            # the same conversion asked with OBJECT arguments: of a Unit, a container or a Quantity given as
+            # source / destination only the units count (two quantities of the same amount in different units
+            # are still different units)
+            wab = x * want_ratio(a, b)[0]
+            rba = want_ratio(b, a)[0]
+            try:
+                forms = {"unit-objects": (ureg.Unit(a), ureg.Unit(b)),
+                         "containers": (ureg.Unit(a)._units, ureg.Unit(b)._units),
+                         "quantities-same-amount": (ureg.Quantity(num(rba), a), ureg.Quantity(nit(1), b)),
+                         "quantities": (ureg.Quantity(nit(3), a), ureg.Quantity(nit(5), b))}
+            except Exception:  # noqa: BLE001
+                forms = {}
+            for fname, (sa_, sb_) in forms.items():
+                rec.count("argument_form_conversions")
+                try:
+                    got = ureg.convert(xv, sa_, sb_)
+                except Exception as e:  # noqa: BLE001
+                    rec.violation("raised", dict(ctx, form=fname, err=repr(e)[:200]), nit=nitname)
+                    continue
+                cmp(got, wab, exact, dict(ctx, form=fname), "argument-form-" + fname)
     elif spec["kind"] == "prefix":
         one = F(1)
         spells = [s for s, c in m.spell.items() if c in fac and s.isidentifier()]
